@@ -333,6 +333,8 @@ func runUntilDrainedAfter(s *sim.CoreSim, cfg sim.CoreCfg, fs *sim.FateScript, a
 // end): after any fault script, with readers that keep reading, everything
 // written is read and both send backlogs return to zero. Progress-based
 // oracle (see runPairUntilComplete); afterwards the backlogs must drain too.
+var errC02Transient = fmt.Errorf("sendto: network is unreachable (injected, transient)")
+
 func TestC02Session(t *testing.T) {
 	rec := hx.NewRecorder(t)
 	opts := sim.FateOpts{MaxExplicit: 20, MaxRegimes: 3, MaxRegLen: 120, MaxDelay: 1500, MaxOutageMs: 400_000, MaxOutages: 2}
@@ -341,9 +343,19 @@ func TestC02Session(t *testing.T) {
 		fs := sim.DrawFateScript(rt, opts)
 		app := drawSessApps(rt, pairMSS(cfg), 20, 80_000)
 		retunes := drawRetunes(rt, cfg)
+		// a socket whose sendto fails a few times and then works again (a route
+		// that disappears for a moment): the library refuses further Writes at
+		// that end from then on, but what it had accepted must still arrive
+		wfAt, wfEnd, wfN := int64(-1), 0, 0
+		if rapid.IntRange(0, 2).Draw(rt, "writeFault") == 0 {
+			wfAt = int64(rapid.SampledFrom([]int{0, 15, 120, 900, 5000}).Draw(rt, "writeFaultAt"))
+			wfEnd = rapid.IntRange(0, 1).Draw(rt, "writeFaultEnd")
+			wfN = rapid.SampledFrom([]int{1, 1, 2, 6}).Draw(rt, "writeFaultCalls")
+		}
 		var d snmpDelta
 		outageHit, drained := false, false
 		retuned := 0
+		wfHit, wfCut := false, false
 		rapid.SyncTest(rt, func(rt *rapid.T) {
 			before := kcp.DefaultSnmp.Copy()
 			s := sim.NewSessSim(cfg.ClockOff, cfg.EntropySeed)
@@ -354,7 +366,35 @@ func TestC02Session(t *testing.T) {
 			defer p.Finish(nil)
 			setPairLinks(s, p, fs)
 			ivSum := cfg.Opts[0].Interval + cfg.Opts[1].Interval + 400 // the interval may be re-tuned up to 200 ms
-			retuned, err = runPairWithRetunes(p, s, retunes)
+			if wfAt >= 0 {
+				// the tuning calls scheduled before the fault, the fault, the rest
+				var before, after []sessRetune
+				for _, r := range retunes {
+					if r.AtMs <= wfAt {
+						before = append(before, r)
+					} else {
+						after = append(after, r)
+					}
+				}
+				var m int
+				m, err = runPairWithRetunes(p, s, before)
+				retuned += m
+				if err == nil {
+					err = p.Run(wfAt, false)
+				}
+				if err == nil && !p.Complete() {
+					before := p.Conn[wfEnd].Writes
+					p.WriteCutOK[wfEnd] = true
+					p.Conn[wfEnd].FailWrites(wfN, errC02Transient)
+					defer func() { wfHit = p.Conn[wfEnd].Writes > before; wfCut = p.WriteCut[wfEnd] }()
+				}
+				if err == nil {
+					m, err = runPairWithRetunes(p, s, after)
+					retuned += m
+				}
+			} else {
+				retuned, err = runPairWithRetunes(p, s, retunes)
+			}
 			if err == nil {
 				err = runPairUntilComplete(p, s, fs.EndTime(), 0, ivSum)
 			}
@@ -390,7 +430,7 @@ func TestC02Session(t *testing.T) {
 				err = nil
 			}
 			if err != nil {
-				rt.Fatalf("C02 (session): %v\ntuning calls in mid-connection: %+v\ncase: %+v", err, retunes, describePair(cfg, fs, app))
+				rt.Fatalf("C02 (session): %v\ntuning calls in mid-connection: %+v; transient send fault at %d ms, end %d, %d call(s)\ncase: %+v", err, retunes, wfAt, wfEnd, wfN, describePair(cfg, fs, app))
 			}
 		})
 		cl := []string{"cipher_" + cfg.Cipher}
@@ -415,7 +455,13 @@ func TestC02Session(t *testing.T) {
 		if retuned > 0 {
 			cl = append(cl, "retuned_in_mid_connection")
 		}
-		rec.Case(hx.Hash64(describePair(cfg, fs, app), retunes), outageHit && d.Retrans > 0, cl...)
+		if wfHit {
+			cl = append(cl, "transient_socket_send_error")
+		}
+		if wfCut {
+			cl = append(cl, "later_write_refused_after_send_error")
+		}
+		rec.Case(hx.Hash64(describePair(cfg, fs, app), retunes, wfAt, wfEnd, wfN), outageHit && d.Retrans > 0, cl...)
 		if rec.WantSample() {
 			dd := describePair(cfg, fs, app)
 			dd["snmp_delta"] = d
